@@ -2,6 +2,7 @@ package rules
 
 import (
 	"fmt"
+	"go/types"
 	"sort"
 	"strings"
 
@@ -31,6 +32,8 @@ type lockGraph struct {
 	nDispatchers, nModSubs int
 	// callbacks made while a lock is held: "lock | caller → callee"
 	callbacksUnderLock []string
+	// call sites left out because the caller's facts about a message rule them out
+	pruned []string
 }
 
 // userStubs: what client-supplied callbacks may call back into (DESIGN §3).
@@ -308,15 +311,30 @@ func buildLockGraph(r *R) *lockGraph {
 				}
 			}
 			for _, e := range siteEdges[ins] {
-				for l := range lg.acquire[e.Callee] {
+				// locks e.Callee may acquire when entered from this call site: its own
+				// acquisitions and call sites that the facts of this call site rule out
+				// (a request kind the caller has excluded) do not count
+				reach := lg.reachFrom(p, f, ci, e, syncOut)
+				for l, fins := range reach {
 					for _, h := range H.ids() {
-						add(h, l, p.InstrPos(ins), core.ShortFn(f)+" → "+chain(e.Callee, l))
+						var first *ssa.Function
+						for fin, via := range fins {
+							if first == nil || core.ShortFn(via) < core.ShortFn(first) {
+								first = via
+							}
+							_ = fin
+						}
+						wit := core.ShortFn(f) + " → " + core.ShortFn(e.Callee)
+						if first != nil && first != e.Callee {
+							wit += " → " + chain(first, l)
+						}
+						add(h, l, p.InstrPos(ins), wit)
 						if h == l {
-							for fin := range lg.final[e.Callee][l] {
+							for fin, via := range fins {
 								// chain through the hops towards this acquirer
-								var parts []string
-								cur := e.Callee
-								for i := 0; i < 25 && cur != nil; i++ {
+								parts := []string{core.ShortFn(e.Callee)}
+								cur := via
+								for i := 0; i < 25 && cur != nil && cur != e.Callee; i++ {
 									parts = append(parts, core.ShortFn(cur))
 									if cur == fin {
 										break
@@ -445,4 +463,161 @@ func lockOrderRules(r *R, rule string) *lockGraph {
 	}
 	r.c.Floor(rule, len(lg.edges), 5, "lock-order edges")
 	return lg
+}
+
+// reachFrom: lock → final acquirer → first hop, for the locks callee e.Callee
+// may acquire when entered from call site S of f. A call site T inside
+// e.Callee is left out when every path of f reaching S has established, about
+// a message passed as an argument, the opposite of an accessor fact that
+// dominates T (e.g. the caller only lets new and restart requests through and
+// T is under "not new, not restart, cancel"). Depth one: deeper hops are taken
+// from the context-free closure.
+func (lg *lockGraph) reachFrom(p *core.Prog, f *ssa.Function, S ssa.CallInstruction, e core.Edge, syncOut map[*ssa.Function][]core.Edge) map[string]map[*ssa.Function]*ssa.Function {
+	out := map[string]map[*ssa.Function]*ssa.Function{}
+	put := func(l string, fin, via *ssa.Function) {
+		if out[l] == nil {
+			out[l] = map[*ssa.Function]*ssa.Function{}
+		}
+		if _, ok := out[l][fin]; !ok {
+			out[l][fin] = via
+		}
+	}
+	c1 := e.Callee
+	ctx := newCallContext(p, f, S, c1, e.Kind)
+	for _, ci := range core.CallSites(c1) {
+		if _, isGo := ci.(*ssa.Go); isGo {
+			continue
+		}
+		id := ""
+		if op := classifyLock(ci.Common()); op != nil && op.acquire {
+			id = op.id
+		} else if isPubsubAcquire(p, ci.Common()) {
+			id = psLock
+		}
+		if id != "" && ctx.feasible(ci.(ssa.Instruction)) {
+			put(id, c1, c1)
+		}
+	}
+	for _, e2 := range syncOut[c1] {
+		if e2.Site != nil && !ctx.feasible(e2.Site) {
+			lg.pruned = append(lg.pruned, core.ShortFn(f)+" → "+core.ShortFn(c1)+" ↛ "+core.ShortFn(e2.Callee)+" ("+ctx.why+")")
+			continue
+		}
+		for l, fins := range lg.final[e2.Callee] {
+			for fin := range fins {
+				put(l, fin, e2.Callee)
+			}
+		}
+	}
+	return out
+}
+
+// callContext decides whether an instruction of callee c1 can execute when c1
+// is entered from call site S of f.
+type callContext struct {
+	p     *core.Prog
+	c1    *ssa.Function
+	paths []*core.Path // paths of f through S
+	args  map[*ssa.Parameter]ssa.Value
+	S     ssa.CallInstruction
+	ok    bool
+	why   string
+}
+
+var lockPathsCache = map[*ssa.Function][]*core.Path{}
+
+func isMessageType(t types.Type) bool {
+	s := core.TypeShort(t)
+	return s == "datatransfer.Request" || s == "datatransfer.Response" || s == "datatransfer.Message"
+}
+
+func newCallContext(p *core.Prog, f *ssa.Function, S ssa.CallInstruction, c1 *ssa.Function, kind string) *callContext {
+	cc := &callContext{p: p, c1: c1, S: S, args: map[*ssa.Parameter]ssa.Value{}}
+	if kind != "call" && kind != "defer" && kind != "" {
+		return cc
+	}
+	c := S.Common()
+	var actual []ssa.Value
+	if c.IsInvoke() {
+		actual = append([]ssa.Value{c.Value}, c.Args...)
+	} else {
+		actual = c.Args
+	}
+	if len(actual) != len(c1.Params) {
+		return cc
+	}
+	any := false
+	for i, q := range c1.Params {
+		if isMessageType(q.Type()) {
+			cc.args[q] = actual[i]
+			any = true
+		}
+	}
+	if !any {
+		return cc
+	}
+	ps, done := lockPathsCache[f]
+	if !done {
+		var complete bool
+		ps, complete = p.Paths(f)
+		if !complete {
+			ps = nil
+		}
+		lockPathsCache[f] = ps
+	}
+	for _, pt := range ps {
+		for _, ev := range pt.Evs {
+			if ev.Instr == S.(ssa.Instruction) {
+				cc.paths = append(cc.paths, pt)
+				break
+			}
+		}
+	}
+	cc.ok = len(cc.paths) > 0
+	return cc
+}
+
+func (cc *callContext) feasible(T ssa.Instruction) bool {
+	if !cc.ok {
+		return true
+	}
+	facts := cc.p.Facts(cc.c1)[T.Block()]
+	if len(facts) == 0 {
+		return true
+	}
+	for _, pt := range cc.paths {
+		d := cc.p.D()
+		d.Subst = map[*ssa.Parameter]string{}
+		var prefixes []string
+		for q, v := range cc.args {
+			s := pt.Desc(v)
+			d.Subst[q] = s
+			prefixes = append(prefixes, s+".")
+		}
+		before := pt.AtomsBefore(cc.S.(ssa.Instruction))
+		contradicted := false
+		for _, fc := range facts {
+			a := d.NormAtom(fc.Cond, fc.Pol)
+			// only no-argument accessor calls on a message that was passed in
+			isAcc := false
+			for _, pre := range prefixes {
+				if strings.HasPrefix(a.S, pre) && strings.HasSuffix(a.S, "()") && !strings.ContainsAny(a.S[len(pre):len(a.S)-2], ".(") {
+					isAcc = true
+				}
+			}
+			if !isAcc {
+				continue
+			}
+			for _, b := range before {
+				if b.S == a.S && b.Pol != a.Pol {
+					contradicted = true
+					cc.why = "caller established " + b.String()
+				}
+			}
+		}
+		if !contradicted {
+			return true
+		}
+	}
+	return false
 }
